@@ -160,9 +160,19 @@ def do_action(action, obj):
     return signatures.signature(obj)
 
 
+def result_text(action, obj):
+    try:
+        return str(do_action(action, obj))
+    except Exception as e:
+        return 'raised ' + type(e).__name__
+
+
 def guard_set():
+    """The recursion guard behind as_forged when it is reachable as a container (its observable effect is
+    checked independently by repeating the retrieval)."""
     from sigtools import specifiers
-    return specifiers.as_forged.currently_computing
+    g = getattr(specifiers.as_forged, 'currently_computing', None)
+    return g if isinstance(g, set) else set()
 
 
 def run_target(name, inner, outer, texpr, action, exc_types, per_signature, stats, only=None):
@@ -172,6 +182,7 @@ def run_target(name, inner, outer, texpr, action, exc_types, per_signature, stat
     try:
         obj = scenarios.resolve(g, texpr)
         log, base_outcome = faults.list_crossings(lambda: do_action(action, obj))
+        base_text = result_text(action, obj)
     finally:
         realfn.unload(g)
     stats.extra['crossings_total'] += len(log)
@@ -181,10 +192,10 @@ def run_target(name, inner, outer, texpr, action, exc_types, per_signature, stat
     stats.extra['crossings_injected_per_exception_type'] += len(ks)
     for exc_type in exc_types:
         for k in ks:
-            one_fault(name, inner, outer, src, texpr, action, exc_type, k, stats)
+            one_fault(name, inner, outer, src, texpr, action, exc_type, k, stats, base_text)
 
 
-def one_fault(name, inner, outer, src, texpr, action, exc_type, k, stats):
+def one_fault(name, inner, outer, src, texpr, action, exc_type, k, stats, base_text=None):
     stats.case()
     guard_set().clear()
     g, _, _ = scenarios.build(name, inner, outer)
@@ -198,6 +209,9 @@ def one_fault(name, inner, outer, src, texpr, action, exc_type, k, stats):
         inj, outcome = faults.run_with_fault(lambda: do_action(action, obj), k, exc_type, probe)
         after = faults.snapshot(roots)
         guard_left = len(guard_set())
+        # observable form of "the recursion guard is empty / nothing is left half-done": the same retrieval,
+        # repeated without a fault, gives what it gives on a pristine object
+        post_text = result_text(action, obj) if base_text is not None else None
         guard_set().clear()
     finally:
         realfn.unload(g)
@@ -218,6 +232,10 @@ def one_fault(name, inner, outer, src, texpr, action, exc_type, k, stats):
         stats.fail('C16/B/attributes-changed/%s' % name, case,
                    '%s(%s) with %s injected at crossing %d (%s) %s; afterwards: %s' % (
                        action, texpr, exc_type.__name__, k, inj.where, outcome, '; '.join(d)[:600]))
+    if post_text != base_text:
+        stats.fail('C16/B/later-retrieval-differs/%s' % name, case,
+                   '%s(%s) with %s injected at crossing %d (%s) %s; repeating the retrieval afterwards gives %s instead of %s' % (
+                       action, texpr, exc_type.__name__, k, inj.where, outcome, post_text, base_text))
     if guard_left:
         stats.fail('C16/B/guard-not-empty/%s' % name, case,
                    '%s(%s) with %s injected at crossing %d (%s) %s; as_forged recursion guard still holds %d object(s)' % (
